@@ -50,3 +50,6 @@ func VerifDupSortHackEncode(d *snapshot.DBI) (*snapshot.DBI, error) { return dup
 func VerifDupSortHackDecode(d *snapshot.DBI) (*snapshot.DBI, error) { return dupSortHackDecode(d) }
 func VerifDupSortHackEncodeOne(kv snapshot.KV) (snapshot.KV, error) { return dupSortHackEncodeOne(kv) }
 func VerifDupSortHackDecodeOne(kv snapshot.KV) (snapshot.KV, error) { return dupSortHackDecodeOne(kv) }
+
+// VerifStartState exposes the start tracker's flags (initial listing, initial store, first complete pass).
+func (s *Syncer) VerifStartState() (listing, store, pass bool) { return s.startTracker.VerifState() }
